@@ -31,17 +31,17 @@ BOUNDS = {
     'paths': 'all join arguments over {/ . a é blank} up to length 5 (deep: 6) x 5 bases, plus parent/filename/extension/root of every result; equality of paths within and across filesystem instances',
     'reader': 'contents of length 0,1,3 x all scripts of 2 (deep: 3) read/seek calls from 17 operations incl. extreme offsets',
     'writer': 'create/append sessions x all scripts of 3 (deep: 4) write/seek/flush calls from 9 operations',
-    'tree.memory': 'all sequences of 2 (deep: 3) operations (5 primitives plus move_file / copy_file to a fixed destination) over the 11-path universe (incl. prefix siblings a/ab/a.b, a multi-byte directory with a child, a dot-file, a name containing a backslash) on MemoryFS, every observation compared with the abstract tree after every step',
+    'tree.memory': 'all sequences of 2 (deep: 3) operations (5 primitives plus move_file / copy_file to a fixed destination) over the 12-path universe (incl. prefix siblings a/ab/a.b, a directory nested in one of the same name a/a, a multi-byte directory with a child, a dot-file, a name containing a backslash) on MemoryFS, every observation compared with the abstract tree after every step',
     'tree.altroot': 'same sequences on AltrootFS over MemoryFS rooted at /r, plus: nothing outside /r changes',
     'tree.overlay': 'same sequences (length 2) on OverlayFS over two MemoryFS layers with an empty lower layer',
     'composite.memory': 'sequences of 2 operations incl. create_dir_all / remove_dir_all on MemoryFS',
     'composite.altroot': 'sequences of 2 operations incl. create_dir_all / remove_dir_all on AltrootFS',
     'tree.physical': 'same sequences (length 2) on PhysicalFS over a fresh temporary directory, plus: nothing next to the root directory changes',
     'composite.physical': 'sequences of 2 operations incl. create_dir_all / remove_dir_all on PhysicalFS',
-    'union.overlay': 'OverlayFS over three layers with pre-populated lower layers (shadowed file, split directory, a 20000-byte file in the bottom layer) compared with ONE plain tree initialised to the union, all sequences of 2 (deep: 3) operations outside the input classes of the known findings',
+    'union.overlay': 'OverlayFS over three layers with pre-populated lower layers (shadowed file, split directory, a nested directory that exists only in the bottom layer, a 20000-byte file in the bottom layer) compared with ONE plain tree initialised to the union, all sequences of 2 (deep: 3) operations outside the input classes of the known findings',
     'overlay': 'all sequences of 1 (deep: 2) overlay operations (15 kinds incl. move_file / copy_file x 5 paths) over 2 and 3 layers with pre-populated lower layers: lower layers unchanged, observers change nothing, bookkeeping hidden',
     'copydir': 'copy_dir / move_dir of 3 source trees x 3 source directory names (ASCII, multi-byte, below a multi-byte parent) (incl. names repeating the source directory name, empty and nested directories, binary and dot files) x same/other filesystem x existing destination: structure, bytes and returned count',
-    'faults': '11 scenarios (create_dir_all, remove_dir_all, copy/move_file, copy/move_dir, walk_dir, read_to_string, altroot, overlay with faulty upper / faulty lower layer) x every position k of a failing underlying call: never Ok with a partial or wrong effect, never a panic, lower layers untouched',
+    'faults': '12 scenarios (incl. re-creating a removed file / directory through an overlay with a faulty upper layer) (create_dir_all, remove_dir_all, copy/move_file, copy/move_dir, walk_dir, read_to_string, altroot, overlay with faulty upper / faulty lower layer) x every position k of a failing underlying call: never Ok with a partial or wrong effect, never a panic, lower layers untouched',
     'embedded': 'EmbeddedFS over the fixture folder replay/embed (nested, dotted, multi-byte, prefix-sharing names, an empty file) against PhysicalFS on the same folder: for every embedded file and implied directory, the root, and for each an extension, a prefix, a sibling and a path below it (65 paths): existence, type, length, bytes, listings, walk; every mutating call is refused as not-supported; nothing changes',
     'times': 'set_creation/modification/access_time: 3 fields x 3 fields (ordered pairs) x 7 instants (epoch, sub-second, before the epoch, far future) on a file, a directory and the root, on memory, altroot, overlay (upper-layer entries), physical and altroot over physical; plus append sessions (creation time kept, also when set while the handle is open)',
     'handles': '6 scenarios of read / write handles that outlive their file (removed, ancestor removed, re-created) on memory, altroot, overlay: no panic, filesystem usable afterwards',
